@@ -13,7 +13,8 @@ def run(mods, fns, repo="/repo", verbose=True):
     from contracts import schema
     schema.declare(S)
     for m in mods:
-        importlib.import_module("contracts." + m).declare(S)
+        mod = importlib.import_module("contracts." + m); mod.declare(S)
+        if hasattr(mod, "declare2"): mod.declare2(S)
     E = Engine(prog, S)
     for q in fns:
         qq = [k for k in S.fns if k.endswith("." + q) or k.endswith(":" + q)]
